@@ -365,6 +365,11 @@ FlatOp(n, path, ns, ro, top, inop, opc) ==
       me == IF top \/ (n.kind \in {"input", "output"} /\ n.kids = <<>>) THEN {}     \* unwritten, untouched input / output
             ELSE {[p |-> p, kind |-> n.kind, ro |-> myro, ns |-> myns, implicit |-> n.implicit,
                    cfg |-> n.cfg, mand |-> n.mand, dflt |-> n.dflt, la |-> n.la, units |-> n.units, type |-> n.type, iff |-> n.iff,
+                   \* the default values in force: the node's own, else (for a leaf that is not mandatory / a leaf-list
+                   \* without min-elements) the default of its type; "tdd" is the one typedef with a default ("tdv")
+                   dv |-> IF n.dflt # <<>> THEN n.dflt
+                          ELSE IF n.type = "tdd" /\ ((n.kind = "leaf" /\ n.mand # "true") \/ (n.kind = "leaf-list" /\ n.la.min = 0))
+                               THEN <<"tdv">> ELSE <<>>,
                    opcfg |-> myopc]}
   IN me \cup UNION {FlatOp(n.kids[k], p, myns, myro, FALSE, myop, myopc) : k \in 1..Len(n.kids)}
 Flat(m) == FlatOf(trees[m], <<>>, P[m].ns, FALSE, TRUE)
